@@ -313,9 +313,12 @@ def gen_scenario(rng, profile=None, size=None, exclude=frozenset()):
         # a condition observing a resource / pool / buffer / queue guard; state changes reach its waiters only through forwarded
         # signals: several condition waiters, most with a predicate on the observed object (so that one release / put / get
         # makes the predicates of several waiters, standing behind each other in the condition's list, true at once)
-        out = ["res", "pool 4", "buf 5", "oq 3", "cond"]
+        chain = rng.random() < 0.3          # a second condition observing the first one: the signal has to travel on
+        out = ["res", "pool 4", "buf 5", "oq 3", "cond"] + (["cond"] if chain else [])
         kind, idx, which = rng.choice([(0, 0, 0), (0, 0, 0), (1, 0, 0), (2, 0, 0), (2, 0, 1), (3, 0, 0), (3, 0, 1)])
         out.append("sub 0 %d %d %d" % (kind, idx, which))
+        if chain:
+            out.append("sub 1 5 0 0")
         if rng.random() < 0.3:
             out.append("sub 0 %d %d %d" % rng.choice([(0, 0, 0), (1, 0, 0), (2, 0, 0), (3, 0, 0)]))
         on_obj = {0: [(1, 0, 0)], 1: [(2, 0, 1), (2, 0, 2), (2, 0, 4)], 2: [(3, 0, 1), (3, 0, 2)], 3: [(4, 0, 1), (4, 0, 2)]}[kind]
@@ -335,6 +338,12 @@ def gen_scenario(rng, profile=None, size=None, exclude=frozenset()):
             if rng.random() < 0.3:
                 cmds += ["cwait 0 %d %d %d" % rng.choice(on_obj)]
             procs.append((rng.randint(0, 5), cmds))
+        if chain:
+            if rng.random() < 0.5:
+                procs = [pc for pc in procs if rng.random() < 0.3]      # often nobody (satisfied) waits on the first condition
+            for _ in range(rng.randint(1, 3)):
+                pr_ = rng.choice(on_obj) if rng.random() < 0.7 else (0, rng.randrange(2), 0)
+                procs.append((rng.randint(0, 5), ["hold %d" % rng.randint(0, 1), "cwait 1 %d %d %d" % pr_, "hold 1"]))
         # the actor: changes state so that the observed guard is signalled, after raising the flag
         actor = ["acq 0", "pacq 0 3", "hold %d" % rng.randint(1, 3), "flag %d 1" % rng.randrange(2), "flag %d 1" % rng.randrange(2)]
         actor += [rng.choice(["rel 0", "bput 0 2", "oput 0 7", "bget 0 1", "oget 0", "prel 0 2"])]
